@@ -75,8 +75,8 @@ func (f *FaultKV) Disarm() (ops []KVOp, fired bool) {
 	return f.ops, f.failed
 }
 
-func (f *FaultKV) EnableCommitLog()   { f.mu.Lock(); f.logCommits = true; f.mu.Unlock() }
-func (f *FaultKV) SetOpIndex(i int)   { f.mu.Lock(); f.opIndex = i; f.mu.Unlock() }
+func (f *FaultKV) EnableCommitLog() { f.mu.Lock(); f.logCommits = true; f.mu.Unlock() }
+func (f *FaultKV) SetOpIndex(i int) { f.mu.Lock(); f.opIndex = i; f.mu.Unlock() }
 func (f *FaultKV) Commits() []CommitRecord {
 	f.mu.Lock()
 	defer f.mu.Unlock()
